@@ -35,6 +35,7 @@ type c02plan struct {
 	Kind    string
 	Suspend bool // one more run: Suspend/Resume right after the last read
 	Burst   int  // ms of simulated time that pass while the unpolled burst sits in the queues
+	Touch   bool // the poller also calls Size()/HasPendingEvent() between polls
 }
 
 func exact(s string) func(string) bool { return func(g string) bool { return g == s } }
@@ -102,6 +103,12 @@ func drawTokens(t *rapid.T, ti *terminfo.Terminfo, w, h int) []c02tok {
 			}
 		case 9:
 			if !focusOK {
+				// on such a terminal only the escape timeout tells a focus
+				// report from the start of a key: as the last thing sent,
+				// followed by silence, it is a focus report
+				if i == n-1 {
+					toks = append(toks, c02tok{Kind: "focus", B: []byte("\x1b[O"), accept: exact("focus:false"), Want: "focus out (then silence)"})
+				}
 				continue
 			}
 			if rapid.Bool().Draw(t, "fin") {
@@ -199,7 +206,9 @@ func drawC02(t *rapid.T) *c02plan {
 		if legacy != "" {
 			alphabet = append(alphabet, "\x81\x83\x5c\x40\xa4\xa2\xb0\xa1\x8e\x8f\xe0\x81\x30\x81\x30\xfe\x39\x82\xa0\x88\xea"...)
 		}
-		junk := []string{"\x1b]52;c;YQ\x1b\\", "\x1b]52;c;!!!!\x07", "\x1b]52;c;YWJj\x1b\\", "\x1b]52;c;=\x07", "\x1b[<0;1;1", "\x1b[M"}
+		junk := []string{"\x1b]52;c;YQ\x1b\\", "\x1b]52;c;!!!!\x07", "\x1b]52;c;YWJj\x1b\\", "\x1b]52;c;=\x07", "\x1b[<0;1;1", "\x1b[M",
+			// complete legacy and SGR mouse reports behind a one-byte CSI
+			"\x9bM !!", "\x9bM#\x22\x22", "\x9b<0;2;2M", "\x1b[M !!"}
 		n := rapid.IntRange(1, 40).Draw(t, "nbytes")
 		for i := 0; i < n; i++ {
 			if rapid.IntRange(0, 19).Draw(t, "junk") == 0 {
@@ -223,6 +232,8 @@ func drawC02(t *rapid.T) *c02plan {
 	p.Cfg.Polling = rapid.IntRange(0, 5).Draw(t, "polling") == 0
 	p.Burst = rapid.SampledFrom([]int{0, 0, 60, 200}).Draw(t, "burstms")
 	p.Suspend = rapid.IntRange(0, 3).Draw(t, "suspend") == 0
+	// an application that uses the screen between polls
+	p.Touch = rapid.IntRange(0, 3).Draw(t, "touch") == 0
 	ncut := rapid.IntRange(1, 11).Draw(t, "ncuts")
 	for i := 0; i < ncut && len(p.Bytes) > 1; i++ {
 		p.Cuts = append(p.Cuts, rapid.IntRange(1, len(p.Bytes)-1).Draw(t, "cut"))
@@ -306,6 +317,8 @@ func runC02(t *rapid.T) {
 		return
 	}
 	p := drawC02(t)
+	iwTouch = p.Touch
+	defer func() { iwTouch = false }()
 	chA := &simrt.Chooser{}
 	chB := hx.DrawChooser(t, 60)
 	chC := hx.DrawChooser(t, 60)
